@@ -6,8 +6,11 @@
 (*   C  DataChannel.Close mark closed | check state | store closing, close    *)
 (*   P  PeerConnection.Close  ... | store closed on every channel, transport  *)
 (*   R  readLoop end     (once the underlying channel or the transport ended) *)
-(* Impl = "asis": every store is unconditional.                                *)
-(* Impl = "fixed": a store only ever moves the state forward.                  *)
+(* Impl = "asis": every store is unconditional (the pinned code).              *)
+(* Impl = "fixed": a store only ever moves the state forward, by a             *)
+(*   compare-and-swap on the value that was loaded (current code).             *)
+(* Impl = "loadstore": decides on the loaded value, then stores without        *)
+(*   comparing (a wrong alternative: TLC shows the state moving backwards).    *)
 EXTENDS Naturals, Sequences, FiniteSets, TLC, Json
 
 CONSTANTS Impl, Start, WithP       \* Start \in {"connecting", "open"}; WithP: PeerConnection.Close takes part
@@ -23,44 +26,59 @@ variables state = Start,
           loop = IF Start = "open" THEN "running" ELSE "none",
           stores = <<>>,                 \* every value stored, in order
           oEntered = (Start = "open"),
-          closeCalled = FALSE;
+          closeCalled = FALSE,
+          okv = [p \in {"O", "C", "P", "R"} |-> TRUE];   \* what setReadyState returned to p
 
-macro Store(x) {
-  if (Impl = "asis" \/ Rank(x) > Rank(state)) { state := x; stores := Append(stores, x) }
+\* setReadyState(x): load | compare-and-swap, again if somebody else stored in between.
+\*   "asis"      (pinned code) stores unconditionally
+\*   "fixed"     (current code) moves forward only, by compare-and-swap
+\*   "loadstore" (a wrong alternative) decides on the loaded value and then stores without comparing
+procedure SetState(x) variable cur = "connecting"; {
+  sLoad: cur := state;                                             \* -> gate dc.setstate.loaded
+  sCas:  if (Impl = "asis") { state := x; stores := Append(stores, x); okv[self] := TRUE }
+         else if (cur = x) { okv[self] := TRUE }
+         else if (Rank(cur) > Rank(x)) { okv[self] := FALSE }
+         else if (Impl = "loadstore" \/ state = cur) { state := x; stores := Append(stores, x); okv[self] := TRUE }
+         else { goto sLoad };
+  sRet:  return;
 }
 
 fair process (O = "O") {
   oEnter: await Start = "connecting"; oEntered := TRUE;           \* gate dc.handleOpen.enter
   oCheck: if (closedFlag) { under := TRUE; goto oEnd } else { haveDc := TRUE };  \* -> dc.handleOpen.unlocked
-  oStore: Store("open");                                           \* -> dc.handleOpen.stored
-          if (Impl = "fixed" /\ state # "open") { under := TRUE; goto oEnd };
-  oTail:  if (~closedFlag) { loop := "running" };
+  oStore: call SetState("open");                                   \* -> dc.handleOpen.stored
+  oTail:  if (Impl # "asis" /\ ~okv["O"]) { under := TRUE }        \* closed meanwhile: close the underlying channel
+          else if (~closedFlag) { loop := "running" };
   oEnd:   skip;
 }
 
 fair process (C = "C") variable hs = FALSE; {
   cMark:  await oEntered; closedFlag := TRUE; hs := haveDc; closeCalled := TRUE;   \* -> dc.close.marked
   cCheck: if (state = "closed") { goto cEnd };                     \* -> dc.close.checked
-  cStore: Store("closing"); if (hs) { under := TRUE };
+  cStore: call SetState("closing");
+  cAfter: if (hs) { under := TRUE };
   cEnd:   skip;
 }
 
 fair process (P = "P") {
   pEnter: await WithP /\ oEntered;                                 \* -> pc.close.step5
-  pStore: Store("closed"); gone := TRUE;
+  pStore: call SetState("closed");
+  pAfter: gone := TRUE;
 }
 
 fair process (R = "R") {
   rWait:  await loop = "running" /\ (under \/ gone);               \* -> dc.readLoop.ending
-  rStore: Store("closed"); loop := "ended";
+  rStore: call SetState("closed");
+  rAfter: loop := "ended";
 }
 } *)
 \* BEGIN TRANSLATION
+CONSTANT defaultInitValue
 VARIABLES pc, state, closedFlag, haveDc, under, gone, loop, stores, oEntered, 
-          closeCalled, hs
+          closeCalled, okv, stack, x, cur, hs
 
 vars == << pc, state, closedFlag, haveDc, under, gone, loop, stores, oEntered, 
-           closeCalled, hs >>
+           closeCalled, okv, stack, x, cur, hs >>
 
 ProcSet == {"O"} \cup {"C"} \cup {"P"} \cup {"R"}
 
@@ -74,19 +92,67 @@ Init == (* Global variables *)
         /\ stores = <<>>
         /\ oEntered = (Start = "open")
         /\ closeCalled = FALSE
+        /\ okv = [p \in {"O", "C", "P", "R"} |-> TRUE]
+        (* Procedure SetState *)
+        /\ x = [ self \in ProcSet |-> defaultInitValue]
+        /\ cur = [ self \in ProcSet |-> "connecting"]
         (* Process C *)
         /\ hs = FALSE
+        /\ stack = [self \in ProcSet |-> << >>]
         /\ pc = [self \in ProcSet |-> CASE self = "O" -> "oEnter"
                                         [] self = "C" -> "cMark"
                                         [] self = "P" -> "pEnter"
                                         [] self = "R" -> "rWait"]
+
+sLoad(self) == /\ pc[self] = "sLoad"
+               /\ cur' = [cur EXCEPT ![self] = state]
+               /\ pc' = [pc EXCEPT ![self] = "sCas"]
+               /\ UNCHANGED << state, closedFlag, haveDc, under, gone, loop, 
+                               stores, oEntered, closeCalled, okv, stack, x, 
+                               hs >>
+
+sCas(self) == /\ pc[self] = "sCas"
+              /\ IF Impl = "asis"
+                    THEN /\ state' = x[self]
+                         /\ stores' = Append(stores, x[self])
+                         /\ okv' = [okv EXCEPT ![self] = TRUE]
+                         /\ pc' = [pc EXCEPT ![self] = "sRet"]
+                    ELSE /\ IF cur[self] = x[self]
+                               THEN /\ okv' = [okv EXCEPT ![self] = TRUE]
+                                    /\ pc' = [pc EXCEPT ![self] = "sRet"]
+                                    /\ UNCHANGED << state, stores >>
+                               ELSE /\ IF Rank(cur[self]) > Rank(x[self])
+                                          THEN /\ okv' = [okv EXCEPT ![self] = FALSE]
+                                               /\ pc' = [pc EXCEPT ![self] = "sRet"]
+                                               /\ UNCHANGED << state, stores >>
+                                          ELSE /\ IF Impl = "loadstore" \/ state = cur[self]
+                                                     THEN /\ state' = x[self]
+                                                          /\ stores' = Append(stores, x[self])
+                                                          /\ okv' = [okv EXCEPT ![self] = TRUE]
+                                                          /\ pc' = [pc EXCEPT ![self] = "sRet"]
+                                                     ELSE /\ pc' = [pc EXCEPT ![self] = "sLoad"]
+                                                          /\ UNCHANGED << state, 
+                                                                          stores, 
+                                                                          okv >>
+              /\ UNCHANGED << closedFlag, haveDc, under, gone, loop, oEntered, 
+                              closeCalled, stack, x, cur, hs >>
+
+sRet(self) == /\ pc[self] = "sRet"
+              /\ pc' = [pc EXCEPT ![self] = Head(stack[self]).pc]
+              /\ cur' = [cur EXCEPT ![self] = Head(stack[self]).cur]
+              /\ x' = [x EXCEPT ![self] = Head(stack[self]).x]
+              /\ stack' = [stack EXCEPT ![self] = Tail(stack[self])]
+              /\ UNCHANGED << state, closedFlag, haveDc, under, gone, loop, 
+                              stores, oEntered, closeCalled, okv, hs >>
+
+SetState(self) == sLoad(self) \/ sCas(self) \/ sRet(self)
 
 oEnter == /\ pc["O"] = "oEnter"
           /\ Start = "connecting"
           /\ oEntered' = TRUE
           /\ pc' = [pc EXCEPT !["O"] = "oCheck"]
           /\ UNCHANGED << state, closedFlag, haveDc, under, gone, loop, stores, 
-                          closeCalled, hs >>
+                          closeCalled, okv, stack, x, cur, hs >>
 
 oCheck == /\ pc["O"] = "oCheck"
           /\ IF closedFlag
@@ -97,36 +163,38 @@ oCheck == /\ pc["O"] = "oCheck"
                      /\ pc' = [pc EXCEPT !["O"] = "oStore"]
                      /\ under' = under
           /\ UNCHANGED << state, closedFlag, gone, loop, stores, oEntered, 
-                          closeCalled, hs >>
+                          closeCalled, okv, stack, x, cur, hs >>
 
 oStore == /\ pc["O"] = "oStore"
-          /\ IF Impl = "asis" \/ Rank("open") > Rank(state)
-                THEN /\ state' = "open"
-                     /\ stores' = Append(stores, "open")
-                ELSE /\ TRUE
-                     /\ UNCHANGED << state, stores >>
-          /\ IF Impl = "fixed" /\ state' # "open"
-                THEN /\ under' = TRUE
-                     /\ pc' = [pc EXCEPT !["O"] = "oEnd"]
-                ELSE /\ pc' = [pc EXCEPT !["O"] = "oTail"]
-                     /\ under' = under
-          /\ UNCHANGED << closedFlag, haveDc, gone, loop, oEntered, 
-                          closeCalled, hs >>
+          /\ /\ stack' = [stack EXCEPT !["O"] = << [ procedure |->  "SetState",
+                                                     pc        |->  "oTail",
+                                                     cur       |->  cur["O"],
+                                                     x         |->  x["O"] ] >>
+                                                 \o stack["O"]]
+             /\ x' = [x EXCEPT !["O"] = "open"]
+          /\ cur' = [cur EXCEPT !["O"] = "connecting"]
+          /\ pc' = [pc EXCEPT !["O"] = "sLoad"]
+          /\ UNCHANGED << state, closedFlag, haveDc, under, gone, loop, stores, 
+                          oEntered, closeCalled, okv, hs >>
 
 oTail == /\ pc["O"] = "oTail"
-         /\ IF ~closedFlag
-               THEN /\ loop' = "running"
-               ELSE /\ TRUE
+         /\ IF Impl # "asis" /\ ~okv["O"]
+               THEN /\ under' = TRUE
                     /\ loop' = loop
+               ELSE /\ IF ~closedFlag
+                          THEN /\ loop' = "running"
+                          ELSE /\ TRUE
+                               /\ loop' = loop
+                    /\ under' = under
          /\ pc' = [pc EXCEPT !["O"] = "oEnd"]
-         /\ UNCHANGED << state, closedFlag, haveDc, under, gone, stores, 
-                         oEntered, closeCalled, hs >>
+         /\ UNCHANGED << state, closedFlag, haveDc, gone, stores, oEntered, 
+                         closeCalled, okv, stack, x, cur, hs >>
 
 oEnd == /\ pc["O"] = "oEnd"
         /\ TRUE
         /\ pc' = [pc EXCEPT !["O"] = "Done"]
         /\ UNCHANGED << state, closedFlag, haveDc, under, gone, loop, stores, 
-                        oEntered, closeCalled, hs >>
+                        oEntered, closeCalled, okv, stack, x, cur, hs >>
 
 O == oEnter \/ oCheck \/ oStore \/ oTail \/ oEnd
 
@@ -136,87 +204,110 @@ cMark == /\ pc["C"] = "cMark"
          /\ hs' = haveDc
          /\ closeCalled' = TRUE
          /\ pc' = [pc EXCEPT !["C"] = "cCheck"]
-         /\ UNCHANGED << state, haveDc, under, gone, loop, stores, oEntered >>
+         /\ UNCHANGED << state, haveDc, under, gone, loop, stores, oEntered, 
+                         okv, stack, x, cur >>
 
 cCheck == /\ pc["C"] = "cCheck"
           /\ IF state = "closed"
                 THEN /\ pc' = [pc EXCEPT !["C"] = "cEnd"]
                 ELSE /\ pc' = [pc EXCEPT !["C"] = "cStore"]
           /\ UNCHANGED << state, closedFlag, haveDc, under, gone, loop, stores, 
-                          oEntered, closeCalled, hs >>
+                          oEntered, closeCalled, okv, stack, x, cur, hs >>
 
 cStore == /\ pc["C"] = "cStore"
-          /\ IF Impl = "asis" \/ Rank("closing") > Rank(state)
-                THEN /\ state' = "closing"
-                     /\ stores' = Append(stores, "closing")
-                ELSE /\ TRUE
-                     /\ UNCHANGED << state, stores >>
+          /\ /\ stack' = [stack EXCEPT !["C"] = << [ procedure |->  "SetState",
+                                                     pc        |->  "cAfter",
+                                                     cur       |->  cur["C"],
+                                                     x         |->  x["C"] ] >>
+                                                 \o stack["C"]]
+             /\ x' = [x EXCEPT !["C"] = "closing"]
+          /\ cur' = [cur EXCEPT !["C"] = "connecting"]
+          /\ pc' = [pc EXCEPT !["C"] = "sLoad"]
+          /\ UNCHANGED << state, closedFlag, haveDc, under, gone, loop, stores, 
+                          oEntered, closeCalled, okv, hs >>
+
+cAfter == /\ pc["C"] = "cAfter"
           /\ IF hs
                 THEN /\ under' = TRUE
                 ELSE /\ TRUE
                      /\ under' = under
           /\ pc' = [pc EXCEPT !["C"] = "cEnd"]
-          /\ UNCHANGED << closedFlag, haveDc, gone, loop, oEntered, 
-                          closeCalled, hs >>
+          /\ UNCHANGED << state, closedFlag, haveDc, gone, loop, stores, 
+                          oEntered, closeCalled, okv, stack, x, cur, hs >>
 
 cEnd == /\ pc["C"] = "cEnd"
         /\ TRUE
         /\ pc' = [pc EXCEPT !["C"] = "Done"]
         /\ UNCHANGED << state, closedFlag, haveDc, under, gone, loop, stores, 
-                        oEntered, closeCalled, hs >>
+                        oEntered, closeCalled, okv, stack, x, cur, hs >>
 
-C == cMark \/ cCheck \/ cStore \/ cEnd
+C == cMark \/ cCheck \/ cStore \/ cAfter \/ cEnd
 
 pEnter == /\ pc["P"] = "pEnter"
           /\ WithP /\ oEntered
           /\ pc' = [pc EXCEPT !["P"] = "pStore"]
           /\ UNCHANGED << state, closedFlag, haveDc, under, gone, loop, stores, 
-                          oEntered, closeCalled, hs >>
+                          oEntered, closeCalled, okv, stack, x, cur, hs >>
 
 pStore == /\ pc["P"] = "pStore"
-          /\ IF Impl = "asis" \/ Rank("closed") > Rank(state)
-                THEN /\ state' = "closed"
-                     /\ stores' = Append(stores, "closed")
-                ELSE /\ TRUE
-                     /\ UNCHANGED << state, stores >>
+          /\ /\ stack' = [stack EXCEPT !["P"] = << [ procedure |->  "SetState",
+                                                     pc        |->  "pAfter",
+                                                     cur       |->  cur["P"],
+                                                     x         |->  x["P"] ] >>
+                                                 \o stack["P"]]
+             /\ x' = [x EXCEPT !["P"] = "closed"]
+          /\ cur' = [cur EXCEPT !["P"] = "connecting"]
+          /\ pc' = [pc EXCEPT !["P"] = "sLoad"]
+          /\ UNCHANGED << state, closedFlag, haveDc, under, gone, loop, stores, 
+                          oEntered, closeCalled, okv, hs >>
+
+pAfter == /\ pc["P"] = "pAfter"
           /\ gone' = TRUE
           /\ pc' = [pc EXCEPT !["P"] = "Done"]
-          /\ UNCHANGED << closedFlag, haveDc, under, loop, oEntered, 
-                          closeCalled, hs >>
+          /\ UNCHANGED << state, closedFlag, haveDc, under, loop, stores, 
+                          oEntered, closeCalled, okv, stack, x, cur, hs >>
 
-P == pEnter \/ pStore
+P == pEnter \/ pStore \/ pAfter
 
 rWait == /\ pc["R"] = "rWait"
          /\ loop = "running" /\ (under \/ gone)
          /\ pc' = [pc EXCEPT !["R"] = "rStore"]
          /\ UNCHANGED << state, closedFlag, haveDc, under, gone, loop, stores, 
-                         oEntered, closeCalled, hs >>
+                         oEntered, closeCalled, okv, stack, x, cur, hs >>
 
 rStore == /\ pc["R"] = "rStore"
-          /\ IF Impl = "asis" \/ Rank("closed") > Rank(state)
-                THEN /\ state' = "closed"
-                     /\ stores' = Append(stores, "closed")
-                ELSE /\ TRUE
-                     /\ UNCHANGED << state, stores >>
+          /\ /\ stack' = [stack EXCEPT !["R"] = << [ procedure |->  "SetState",
+                                                     pc        |->  "rAfter",
+                                                     cur       |->  cur["R"],
+                                                     x         |->  x["R"] ] >>
+                                                 \o stack["R"]]
+             /\ x' = [x EXCEPT !["R"] = "closed"]
+          /\ cur' = [cur EXCEPT !["R"] = "connecting"]
+          /\ pc' = [pc EXCEPT !["R"] = "sLoad"]
+          /\ UNCHANGED << state, closedFlag, haveDc, under, gone, loop, stores, 
+                          oEntered, closeCalled, okv, hs >>
+
+rAfter == /\ pc["R"] = "rAfter"
           /\ loop' = "ended"
           /\ pc' = [pc EXCEPT !["R"] = "Done"]
-          /\ UNCHANGED << closedFlag, haveDc, under, gone, oEntered, 
-                          closeCalled, hs >>
+          /\ UNCHANGED << state, closedFlag, haveDc, under, gone, stores, 
+                          oEntered, closeCalled, okv, stack, x, cur, hs >>
 
-R == rWait \/ rStore
+R == rWait \/ rStore \/ rAfter
 
 (* Allow infinite stuttering to prevent deadlock on termination. *)
 Terminating == /\ \A self \in ProcSet: pc[self] = "Done"
                /\ UNCHANGED vars
 
 Next == O \/ C \/ P \/ R
+           \/ (\E self \in ProcSet: SetState(self))
            \/ Terminating
 
 Spec == /\ Init /\ [][Next]_vars
-        /\ WF_vars(O)
-        /\ WF_vars(C)
-        /\ WF_vars(P)
-        /\ WF_vars(R)
+        /\ WF_vars(O) /\ WF_vars(SetState("O"))
+        /\ WF_vars(C) /\ WF_vars(SetState("C"))
+        /\ WF_vars(P) /\ WF_vars(SetState("P"))
+        /\ WF_vars(R) /\ WF_vars(SetState("R"))
 
 Termination == <>(\A self \in ProcSet: pc[self] = "Done")
 
@@ -230,9 +321,9 @@ AllDone == /\ pc["O"] = "Done" \/ Start = "open"
 EndsClosed == (AllDone /\ closeCalled /\ gone) => state = "closed"
 NeverReopens == [][state = "closed" => state' = "closed"]_state
 
-Actor == CASE O -> "O" [] C -> "C" [] P -> "P" [] OTHER -> "R"
+Actor == CASE O \/ SetState("O") -> "O" [] C \/ SetState("C") -> "C" [] P \/ SetState("P") -> "P" [] OTHER -> "R"
 St == [pc |-> pc, state |-> state, cf |-> closedFlag, hd |-> haveDc, under |-> under, gone |-> gone,
-       loop |-> loop, stores |-> stores]
+       loop |-> loop, stores |-> stores, cur |-> cur, okv |-> okv]
 EmitInitInv == (stores = <<>> /\ ~closedFlag /\ ~gone /\ pc["C"] = "cMark" /\ pc["P"] = "pEnter" /\ pc["O"] = "oEnter"
                 /\ pc["R"] = "rWait") => PrintT(<<"VERIF_INIT", ToJson(St)>>)
 EmitEdge == PrintT(<<"VERIF_EDGE", ToJson([f |-> St, a |-> [proc |-> Actor, label |-> pc[Actor]], t |-> St'])>>)
